@@ -120,6 +120,7 @@ def main(argv=None):
     ap.add_argument("--replay")
     ap.add_argument("--write-lock", action="store_true", help="maintenance: record the discharged obligations as required")
     ap.add_argument("--no-bounded", action="store_true")
+    ap.add_argument("--bounded-only", action="store_true", help="development: skip the proof part")
     ap.add_argument("--verbose", "-v", action="store_true")
     args = ap.parse_args(argv)
     prop, tier = args.prop, args.tier
@@ -132,7 +133,11 @@ def main(argv=None):
         if args.replay:
             from monitor import replay
             return replay.run(prop, args.replay)
-        funcs, obligations, undecided_fns, solve_s, src = prove(prop, tier, R)
+        if args.bounded_only:
+            from pyvc.frontend import Sources
+            funcs, obligations, undecided_fns, solve_s, src = [], [], [], 0.0, Sources()
+        else:
+            funcs, obligations, undecided_fns, solve_s, src = prove(prop, tier, R)
         groups = group(obligations)
         # a function the engine could not execute completely proves nothing: none of its obligations count
         und_keys = {k for k, _ in undecided_fns}
@@ -141,7 +146,7 @@ def main(argv=None):
                 g["verdict"] = "undecided"
                 for o in g["obs"]:
                     o.detail = "function undecided: " + next(w for k, w in undecided_fns if n.startswith(k))
-        lock = read_lock().get(prop, set())
+        lock = read_lock().get(prop, set()) if not args.bounded_only else set()
         known = [k for k in read_known() if k["property"] == prop]
         if args.write_lock:
             return write_lock(prop, groups, undecided_fns)
